@@ -144,6 +144,17 @@ pub fn big_bases(p: &Profile) -> Vec<(String, Vec<Step>)> {
     v
 }
 
+pub const CLOCK_BOUNDARIES: [(&str, u64); 4] = [("2^32", (1 << 32) - 2), ("2^53", (1 << 53) - 2), ("2^63", (1 << 63) - 2), ("2^64-1", u64::MAX - 2)];
+
+/// plans whose clock crosses 2^32 / 2^53 / 2^63 within the history or ends at the largest time
+pub fn with_clock_boundaries(out: &mut Vec<Plan>, tweak: &dyn Fn(&mut Profile), levels: usize, depth: usize) {
+    for (name, start) in CLOCK_BOUNDARIES {
+        let mut p = Profile::clock_boundary(&format!("clock-across-{}", name), start);
+        tweak(&mut p);
+        out.push(plan(&format!("clock starting at {} - 2 (crossing / ending at the boundary)", name), p, levels, depth));
+    }
+}
+
 pub fn with_big_bases(out: &mut Vec<Plan>, label: &str, profile: &Profile, levels: usize, depth: usize) {
     for (name, base) in big_bases(profile) {
         let mut p = profile.clone();
@@ -315,6 +326,7 @@ pub fn c01(tier: &str) -> i32 {
     with_bases(&mut plans, "core tick 1", &core1, 3, if t { 5 } else { 3 });
     with_bases(&mut plans, "core + modify", &rp, 3, if t { 4 } else { 2 });
     with_big_bases(&mut plans, "core + modify", &rp, 3, if t { 3 } else { 2 });
+    with_clock_boundaries(&mut plans, &|_| {}, 3, if t { 5 } else { 4 });
     let mut co = Profile::coincidences("coincidences");
     co.modify = true;
     co.modify_prices = true;
@@ -478,6 +490,7 @@ pub fn c03(tier: &str) -> i32 {
     mg.modify_vols = vec![70_001];
     mg.toggles = true;
     plans.push(plan("large times, prices and volumes", mg, 3, if t { 5 } else { 4 }));
+    with_clock_boundaries(&mut plans, &|p| p.reset_tv = true, 3, if t { 5 } else { 4 });
     let mut co = Profile::coincidences("ledger-coincidences");
     co.modify = true;
     co.modify_prices = true;
@@ -537,6 +550,18 @@ pub fn c04(tier: &str) -> i32 {
     mg.prices = vec![2_147_483_647, 2_147_483_648];
     mg.limit_vols = vec![1, 3_000_000_000];
     plans.push(plan("large times (set_time by 2^33), prices and volumes", mg, 3, if t { 5 } else { 4 }));
+    with_clock_boundaries(
+        &mut plans,
+        &|p| {
+            p.create_place = true;
+            p.redundant_place = true;
+            p.set_time_op = true;
+            p.limit_vols = vec![2];
+            p.market_vols = vec![1];
+        },
+        3,
+        if t { 5 } else { 4 },
+    );
     let mut co = Profile::coincidences("lifecycle-coincidences");
     co.create_place = true;
     co.redundant_place = true;
